@@ -445,7 +445,11 @@ func (t *tree) parseSwitch(token item, end itemType) ast.Node {
 		case end:
 			t.expect(itemRightDelim, ctx)
 			return &ast.SwitchNode{token.pos, switchValue, cases}
-		case itemEOF, itemError, itemInvalid:
+		case itemComment:
+			// comments may appear between the cases.
+		default:
+			// anything else (including the end of the input) is an error here,
+			// not something to skip silently.
 			t.unexpected(tok, ctx)
 		}
 	}
